@@ -331,6 +331,11 @@ def gen_spec(R, *, n_lf=None, hc=False, small=False, kinds=None, vrl=None, rows=
                     shape = o['data'].shape
                     o['data'] = (np.array([R.randrange(0, 100) for _ in range(int(np.prod(shape)))]).reshape(shape)).astype(dtype)
                 o['dataset_name'] = R.choice([None, None, f'ds_{li}_{len(objs)}', f'/grp/ds{li}_{len(objs)}'])
+                if R.random() < 0.2:
+                    # a data set name that the library would hand out by itself: the name of the object added next (often
+                    # a channel, which must then get another data set name), or the first alternative name of this channel
+                    nxt = f'{base}{li if n_lf > 1 else ""}{"-" if n_lf > 1 else ""}{len(objs) + 1}'
+                    o['dataset_name'] = R.choice([nxt, nxt, o['name'] + '__1'])
                 frame_channels.setdefault(f, []).append(len(objs))
                 skip = {'dimension', 'element_limit', 'axis', 'representation_code'}
                 if not hc and R.random() < 0.3:
@@ -487,6 +492,10 @@ def _resolve(v, handles):
     return v
 
 
+class DatasetNameCollision(Exception):
+    pass
+
+
 def build(spec):
     """-> Built (df, handles per logical file, data dict per logical file); exceptions propagate"""
     b = Built()
@@ -500,6 +509,7 @@ def build(spec):
         b.df = DLISFile(set_identifier=s['set_identifier'], sul_sequence_number=s['sul_sequence_number'],
                         max_record_length=s['max_record_length'])
     b.handles = []
+    dsn_seen = {}
     b.data = {}
     b.arrays = []      # (lf index, object index, array as handed to the package)
     for li, lf in enumerate(spec['lfs']):
@@ -555,6 +565,13 @@ def build(spec):
             if o['kind'] == 'frame':
                 kw['channels'] = [b.handles[r.lf][r.idx] for r in o['channels']]
             item = method(o['name'], **kw)
+            if o['kind'] == 'channel':
+                # data set names are the keys under which the data of the channels are looked up: the library must never
+                # hand out one name twice within a logical file (the second array would replace the first)
+                if item.dataset_name in dsn_seen.setdefault(li, set()):
+                    raise DatasetNameCollision(f'channel {o["name"]!r} was given the data set name {item.dataset_name!r}, '
+                                               f'which another channel of the logical file already has')
+                dsn_seen[li].add(item.dataset_name)
             if o['kind'] == 'channel' and spec['write']['data_kind'] != 'inline':
                 # the data set is supplied under the name the channel expects (explicit, or the automatic
                 # NAME / NAME__1 ... for a repeated channel name)
@@ -595,7 +612,19 @@ def make_source(kind, datasets, opts):
             fields.append((nm, a.dtype) if a.ndim == 1 else (nm, a.dtype, a.shape[1:]))
         for k in range(extra):
             fields.insert(R.randrange(len(fields) + 1), (f'unused_{k}', np.float32))
-        arr = np.zeros(n, dtype=fields)
+        how = opts.get('struct_view')
+        if how == 'slice':
+            big = np.zeros(n + 7, dtype=fields)
+            arr = big[3:3 + n]                       # a view into a larger array the caller owns
+        elif how == 'slice-of-slice':
+            big = np.zeros(n + 9, dtype=fields)
+            arr = big[2:][1:][1:1 + n]
+        elif how == 'bytes':
+            dt = np.dtype(fields)
+            raw = np.zeros((n + 4) * dt.itemsize, dtype=np.uint8)
+            arr = raw.view(dt)[2:2 + n]              # a reinterpreted byte buffer
+        else:
+            arr = np.zeros(n, dtype=fields)
         for nm in names:
             arr[nm] = datasets[nm]
         return arr
